@@ -27,6 +27,7 @@ import b3spec  # noqa: E402
 
 DRIVER = os.path.join(common.VERIF, "lib", "c_driver", "driver.c")
 SAN = ["-g", "-O1", "-fsanitize=address,undefined", "-fno-sanitize-recover=all", "-fno-omit-frame-pointer"]
+TSAN = ["-g", "-O1", "-fsanitize=thread", "-fno-omit-frame-pointer"]
 NO_SIMD = ["-DBLAKE3_NO_SSE2", "-DBLAKE3_NO_SSE41", "-DBLAKE3_NO_AVX2", "-DBLAKE3_NO_AVX512"]
 # enum cpu_feature of blake3_dispatch.c
 SSE2, SSSE3, SSE41, AVX, AVX2, AVX512F, AVX512VL = 1, 2, 4, 8, 16, 32, 64
@@ -52,8 +53,8 @@ def build(root, repo=None, only=None):
     exes = {}
     procs = []
 
-    def cc(args, out):
-        return subprocess.Popen(["clang"] + SAN + ["-I" + c, "-Wno-everything"] + args + ["-o", out],
+    def cc(args, out, san=None):
+        return subprocess.Popen(["clang"] + (san or SAN) + ["-I" + c, "-Wno-everything"] + args + ["-o", out],
                                 stdout=subprocess.PIPE, stderr=subprocess.STDOUT)
     asm = [os.path.join(c, "blake3_%s_x86-64_unix.S" % k) for k in ("sse2", "sse41", "avx2", "avx512")]
     flavours = {
@@ -63,15 +64,19 @@ def build(root, repo=None, only=None):
         # -DBLAKE3_USE_TBB: blake3_hasher_update_tbb + the real c/blake3_tbb.cpp against the parallel_invoke stand-in
         "tbb_portable": (NO_SIMD + ["-DBLAKE3_USE_TBB"], "tbb"),
         "tbb_asm": (["-DBLAKE3_USE_TBB"], "tbb+asm"),
+        # the same under ThreadSanitizer (instead of ASan/UBSan): the two halves on two threads; a reported race is a
+        # failure of C08's "no data race" clause
+        "tbb_tsan": (NO_SIMD + ["-DBLAKE3_USE_TBB"], "tbb+tsan"),
     }
     for name, (defs, extra) in flavours.items():
         if only and name not in only:
             continue
         exe = os.path.join(root, "cdrv_" + name)
+        san = TSAN if (isinstance(extra, str) and extra.endswith("tsan")) else SAN
         if isinstance(extra, str) and extra.startswith("tbb"):
             o = os.path.join(root, "tbb_%s.o" % name)
             stub = os.path.join(common.VERIF, "lib", "c_driver", "tbb_stub")
-            p = subprocess.Popen(["clang++"] + SAN + ["-std=c++17", "-fno-exceptions", "-fno-rtti", "-I" + stub, "-I" + c,
+            p = subprocess.Popen(["clang++"] + san + ["-std=c++17", "-fno-exceptions", "-fno-rtti", "-I" + stub, "-I" + c,
                                                       "-Wno-everything"] + defs + ["-c", os.path.join(c, "blake3_tbb.cpp"), "-o", o],
                                  stdout=subprocess.PIPE, stderr=subprocess.STDOUT)
             out = p.communicate()[0].decode("utf-8", "replace")
@@ -95,7 +100,7 @@ def build(root, repo=None, only=None):
             if not ok:
                 continue
             extra = objs
-        procs.append((name, exe, cc(defs + [DRIVER] + list(extra), exe)))
+        procs.append((name, exe, cc(defs + [DRIVER] + list(extra), exe, san)))
     for name, exe, p in procs:
         out = p.communicate()[0].decode("utf-8", "replace")
         if p.returncode == 0:
@@ -196,6 +201,7 @@ def run_batch(exe, scs, mask, timeout=120, tbb_order=None):
                UBSAN_OPTIONS="print_stacktrace=1")
     if tbb_order is not None:
         env["VERIF_TBB_ORDER"] = str(tbb_order)
+    env["TSAN_OPTIONS"] = "halt_on_error=1:exitcode=66:report_signal_unsafe=0"
     try:
         p = subprocess.run([exe], input=inp.encode(), stdout=subprocess.PIPE, stderr=subprocess.PIPE, timeout=timeout, env=env)
         rc, out, err = p.returncode, p.stdout.decode("utf-8", "replace"), p.stderr.decode("utf-8", "replace")
@@ -212,7 +218,8 @@ def run_batch(exe, scs, mask, timeout=120, tbb_order=None):
         a = answers.get(i)
         if a is None:
             if rc != 0 and i == cur:
-                kind = "memory" if ("Sanitizer" in err or "runtime error" in err or "GUARD:" in err) else "crash"
+                kind = "race" if "ThreadSanitizer" in err else \
+                    "memory" if ("Sanitizer" in err or "runtime error" in err or "GUARD:" in err) else "crash"
                 return i, {"class": kind, "field": "process ended with exit code %d" % rc, "observed": err[-2500:],
                            "expected": "no sanitizer report, no fault"}, i
             return None, None, i
@@ -241,6 +248,8 @@ def _scn_json(s, flavour, maskname, mask):
 def _accept(prop, m):
     # C07 is about memory safety / UB only; C06 about any observable difference
     # (C08: the -DBLAKE3_USE_TBB flavours, any difference from the oracle = from the serial result)
+    if m["class"] == "race":
+        return prop in ("C08", "C18")
     return m["class"] in ("memory", "crash") if prop == "C07" else True
 
 
@@ -254,7 +263,7 @@ def find(prop, fo, seed, deadline=None, repo=None):
     root = common.scratch_dir("search_c")
     found = None
     try:
-        order = (fo or {}).get("variants") or (["tbb_portable", "tbb_asm", "portable"] if prop == "C08"
+        order = (fo or {}).get("variants") or (["tbb_tsan", "tbb_portable", "tbb_asm", "portable"] if prop == "C08"
                                                else ["portable", "asm", "intrinsics"])
         exes, blog = build(root, repo)
         log["builds"] = blog
@@ -262,6 +271,9 @@ def find(prop, fo, seed, deadline=None, repo=None):
         jobs = []
         for fl in order:
             if exes.get(fl):
+                if fl == "tbb_tsan":
+                    jobs.append((fl, "none/order2", 0))
+                    continue
                 if fl.startswith("tbb"):
                     for o in (0, 1, 2):
                         for mname, mask in ([("none", 0)] if fl == "tbb_portable" else [MASKS[0], MASKS[3]]):
